@@ -112,33 +112,46 @@ impl SwiftField for Field52B {
             let line = &lines[0][1..]; // Remove leading /
 
             // Check if it's /1!a/34x format
-            if let Some(slash_pos) = line.find('/') {
+            let coded = line.find('/').filter(|&slash_pos| {
+                let code = &line[..slash_pos];
+                code.len() == 1
+                    && code.chars().all(|c| c.is_ascii_alphabetic())
+                    && line[slash_pos + 1..].len() <= 34
+            });
+            if let Some(slash_pos) = coded {
                 let code = &line[..slash_pos];
                 let id = &line[slash_pos + 1..];
-
-                if code.len() == 1
-                    && code.chars().all(|c| c.is_ascii_alphabetic())
-                    && id.len() <= 34
-                {
-                    parse_swift_chars(id, "Field 52B party identifier")?;
-                    party_identifier = Some(format!("{}/{}", code, id));
-                    current_idx = 1;
-                }
-            } else if line.len() <= 34 {
+                parse_swift_chars(id, "Field 52B party identifier")?;
+                party_identifier = Some(format!("{}/{}", code, id));
+                current_idx = 1;
+            } else if !line.is_empty() && line.len() <= 34 {
                 // Just /34x format
                 parse_swift_chars(line, "Field 52B party identifier")?;
                 party_identifier = Some(line.to_string());
                 current_idx = 1;
+            } else {
+                return Err(ParseError::InvalidFormat {
+                    message: "Field 52B party identifier must be /1!a/34x or /34x".to_string(),
+                });
             }
         }
 
         // Check for location
         if current_idx < lines.len() {
             let loc = lines[current_idx];
-            if !loc.is_empty() && loc.len() <= 35 {
-                parse_swift_chars(loc, "Field 52B location")?;
-                location = Some(loc.to_string());
+            if loc.len() > 35 {
+                return Err(ParseError::InvalidFormat {
+                    message: "Field 52B location exceeds 35 characters".to_string(),
+                });
             }
+            parse_swift_chars(loc, "Field 52B location")?;
+            location = Some(loc.to_string());
+            current_idx += 1;
+        }
+        if current_idx < lines.len() {
+            return Err(ParseError::InvalidFormat {
+                message: "Field 52B has more lines than party identifier and location".to_string(),
+            });
         }
 
         Ok(Field52B {
